@@ -43,6 +43,10 @@ CLAIMED = {
         technique="MIR stored-value flow + guard facts: each stored Config field that can differ from the loaded one is matched with a validation fact about that same operand; cap comparisons matched with the value actually written",
         note="Decided: R20.1 every ratio field stored by instantiate/UpdateConfig (engine 4, vAMM 3) was established <= decimals on that path; R20.2 stored maintenance <= stored initial on every path changing either (sequential validation included); R20.3 stored TWAP interval passed (60..=604800), instantiate constant inside; R20.4 AddVamm stores only after engine.decimals == msg.vamm.decimals; R20.5 the open-interest writer compares the value it writes with +cap (or cap==0 / not an increase / whitelisted), the increase reply runs it with a positive amount and checks the holding cap on the stored size. Not decided: open-interest arithmetic; effect of lowering a cap below current usage.",
         design="4/C20"),
+    "C15": dict(
+        technique="MIR cross-contract constant propagation of the fluctuation flag, guard facts of the vAMM band check before every reserve write, decision-tree and query-argument analysis of ClosePosition, reference-snapshot selection and Env plumbing",
+        note="Decided: R15.1 every SwapInput on the OpenPosition chains (incl. the chained increase after a reversal) carries can_go_over_fluctuation=false; R15.2 reserve writes are preceded by the strict, unconditional already-outside test and by the would-leave test unless the flag is set; R15.3 ClosePosition's fluctuation query uses the position's closing direction and whole size; R15.4 partial close iff over-limit and ratio<1, amount = size*ratio/decimals; R15.5 previous snapshot iff latest is from this block and not the first, callers pass Env unchanged. Not decided: the band arithmetic itself.",
+        design="4/C15"),
 }
 
 NOT_BUILT = "rules designed in DESIGN.md section 4 but not built yet"
